@@ -16,6 +16,9 @@ Chess/Fen.vos Chess/Fen.vok Chess/Fen.required_vos: Chess/Fen.v Chess/Rules.vos
 Chess/History.vo Chess/History.glob Chess/History.v.beautified Chess/History.required_vo: Chess/History.v Chess/Rules.vo
 Chess/History.vio: Chess/History.v Chess/Rules.vio
 Chess/History.vos Chess/History.vok Chess/History.required_vos: Chess/History.v Chess/Rules.vos
+Chess/HistoryKeys.vo Chess/HistoryKeys.glob Chess/HistoryKeys.v.beautified Chess/HistoryKeys.required_vo: Chess/HistoryKeys.v Chess/Rules.vo Chess/History.vo
+Chess/HistoryKeys.vio: Chess/HistoryKeys.v Chess/Rules.vio Chess/History.vio
+Chess/HistoryKeys.vos Chess/HistoryKeys.vok Chess/HistoryKeys.required_vos: Chess/HistoryKeys.v Chess/Rules.vos Chess/History.vos
 Chess/Rules.vo Chess/Rules.glob Chess/Rules.v.beautified Chess/Rules.required_vo: Chess/Rules.v Base/Geom.vo
 Chess/Rules.vio: Chess/Rules.v Base/Geom.vio
 Chess/Rules.vos Chess/Rules.vok Chess/Rules.required_vos: Chess/Rules.v Base/Geom.vos
@@ -67,6 +70,9 @@ Engine/GoParse.vos Engine/GoParse.vok Engine/GoParse.required_vos: Engine/GoPars
 Engine/GoParseProofs.vo Engine/GoParseProofs.glob Engine/GoParseProofs.v.beautified Engine/GoParseProofs.required_vo: Engine/GoParseProofs.v Engine/GoParse.vo
 Engine/GoParseProofs.vio: Engine/GoParseProofs.v Engine/GoParse.vio
 Engine/GoParseProofs.vos Engine/GoParseProofs.vok Engine/GoParseProofs.required_vos: Engine/GoParseProofs.v Engine/GoParse.vos
+Engine/HistoryRefine.vo Engine/HistoryRefine.glob Engine/HistoryRefine.v.beautified Engine/HistoryRefine.required_vo: Engine/HistoryRefine.v Engine/PositionRep.vo Engine/EncodingProofs.vo Engine/RepProofs.vo Engine/RepRoundTrip.vo Engine/RepRoundTripNormal.vo Engine/RepAbs.vo Engine/RepRefine.vo Engine/RepRefineLegal.vo Engine/KeyScratch.vo Engine/KeyScratchMove.vo Engine/KeyScratchInit.vo Chess/History.vo Chess/HistoryKeys.vo Base/NIter.vo
+Engine/HistoryRefine.vio: Engine/HistoryRefine.v Engine/PositionRep.vio Engine/EncodingProofs.vio Engine/RepProofs.vio Engine/RepRoundTrip.vio Engine/RepRoundTripNormal.vio Engine/RepAbs.vio Engine/RepRefine.vio Engine/RepRefineLegal.vio Engine/KeyScratch.vio Engine/KeyScratchMove.vio Engine/KeyScratchInit.vio Chess/History.vio Chess/HistoryKeys.vio Base/NIter.vio
+Engine/HistoryRefine.vos Engine/HistoryRefine.vok Engine/HistoryRefine.required_vos: Engine/HistoryRefine.v Engine/PositionRep.vos Engine/EncodingProofs.vos Engine/RepProofs.vos Engine/RepRoundTrip.vos Engine/RepRoundTripNormal.vos Engine/RepAbs.vos Engine/RepRefine.vos Engine/RepRefineLegal.vos Engine/KeyScratch.vos Engine/KeyScratchMove.vos Engine/KeyScratchInit.vos Chess/History.vos Chess/HistoryKeys.vos Base/NIter.vos
 Engine/KPK.vo Engine/KPK.glob Engine/KPK.v.beautified Engine/KPK.required_vo: Engine/KPK.v Base/Geom.vo Engine/Game.vo
 Engine/KPK.vio: Engine/KPK.v Base/Geom.vio Engine/Game.vio
 Engine/KPK.vos Engine/KPK.vok Engine/KPK.required_vos: Engine/KPK.v Base/Geom.vos Engine/Game.vos
@@ -256,9 +262,9 @@ Props/Properties_C05.vos Props/Properties_C05.vok Props/Properties_C05.required_
 Props/Properties_C06.vo Props/Properties_C06.glob Props/Properties_C06.v.beautified Props/Properties_C06.required_vo: Props/Properties_C06.v Gen/Layout.vo Gen/LayoutAst.vo Engine/StopProtocol.vo Engine/StopProofs.vo
 Props/Properties_C06.vio: Props/Properties_C06.v Gen/Layout.vio Gen/LayoutAst.vio Engine/StopProtocol.vio Engine/StopProofs.vio
 Props/Properties_C06.vos Props/Properties_C06.vok Props/Properties_C06.required_vos: Props/Properties_C06.v Gen/Layout.vos Gen/LayoutAst.vos Engine/StopProtocol.vos Engine/StopProofs.vos
-Props/Properties_C07.vo Props/Properties_C07.glob Props/Properties_C07.v.beautified Props/Properties_C07.required_vo: Props/Properties_C07.v Chess/Rules.vo Chess/History.vo Chess/RulesFacts.vo
-Props/Properties_C07.vio: Props/Properties_C07.v Chess/Rules.vio Chess/History.vio Chess/RulesFacts.vio
-Props/Properties_C07.vos Props/Properties_C07.vok Props/Properties_C07.required_vos: Props/Properties_C07.v Chess/Rules.vos Chess/History.vos Chess/RulesFacts.vos
+Props/Properties_C07.vo Props/Properties_C07.glob Props/Properties_C07.v.beautified Props/Properties_C07.required_vo: Props/Properties_C07.v Chess/Rules.vo Chess/History.vo Chess/RulesFacts.vo Chess/HistoryKeys.vo Engine/PositionRep.vo Engine/RepAbs.vo Engine/RepRefineLegal.vo Engine/KeyScratchInit.vo Engine/HistoryRefine.vo
+Props/Properties_C07.vio: Props/Properties_C07.v Chess/Rules.vio Chess/History.vio Chess/RulesFacts.vio Chess/HistoryKeys.vio Engine/PositionRep.vio Engine/RepAbs.vio Engine/RepRefineLegal.vio Engine/KeyScratchInit.vio Engine/HistoryRefine.vio
+Props/Properties_C07.vos Props/Properties_C07.vok Props/Properties_C07.required_vos: Props/Properties_C07.v Chess/Rules.vos Chess/History.vos Chess/RulesFacts.vos Chess/HistoryKeys.vos Engine/PositionRep.vos Engine/RepAbs.vos Engine/RepRefineLegal.vos Engine/KeyScratchInit.vos Engine/HistoryRefine.vos
 Props/Properties_C08.vo Props/Properties_C08.glob Props/Properties_C08.v.beautified Props/Properties_C08.required_vo: Props/Properties_C08.v Gen/Consts.vo Engine/SearchDriver.vo Engine/MateScore.vo
 Props/Properties_C08.vio: Props/Properties_C08.v Gen/Consts.vio Engine/SearchDriver.vio Engine/MateScore.vio
 Props/Properties_C08.vos Props/Properties_C08.vok Props/Properties_C08.required_vos: Props/Properties_C08.v Gen/Consts.vos Engine/SearchDriver.vos Engine/MateScore.vos
